@@ -57,6 +57,16 @@ Theorem c11_read_trn_workers_irrelevant : forall processes sched chunk_size file
 Proof. exact workers_irrelevant. Qed.
 Print Assumptions c11_read_trn_workers_irrelevant.
 
+(* the two clauses together: written through a path, read through either entry point by any
+   number of workers *)
+Theorem c11_trn_roundtrip_any_workers : forall ts processes sched chunk_size,
+  trn_okb ts = true ->
+  (forall i, (i < length (lines (write_trn_path ts)))%nat -> In i sched) ->
+  read_trn_file processes sched chunk_size (write_trn_path ts) = Ok ts
+  /\ read_trn_path processes sched chunk_size (write_trn_path ts) = Ok ts.
+Proof. exact trn_roundtrip_workers. Qed.
+Print Assumptions c11_trn_roundtrip_any_workers.
+
 (* imap itself: any function, any chunk size, any completion order *)
 Theorem c11_imap_eq_map : forall (A B : Type) (f : A -> B) sched k (l : list A),
   (forall i, (i < length l)%nat -> In i sched) -> imap f sched k l = map f l.
